@@ -347,8 +347,8 @@ void harness(void)
 INSERT_PRE = '''
     WIT(size_t, pos); WIT(int, x);
     __CPROVER_assume(pos <= size && size < C02_MAXN && 0 <= x && x <= C02_VMAX);
-    __CPROVER_assume(!isnull || KF_C02_insert_null != 1);
-    __CPROVER_assume(k == 0 ? j == 0 : j == k - 1);     /* second tracked slot = the source of slot k (value bookkeeping only) */
+    __CPROVER_assume(REALLOC ? size == cap : size < cap);   /* case split (params): with / without reallocation */
+    __CPROVER_assume(k == 0 ? j == 0 : j == k - 1);         /* second tracked slot = the source of slot k (value bookkeeping only) */
     ELEM *d0 = v.m_data;
     int old_k = k < size ? ELEM_V(&v.m_data[k]) : 0;
     int old_j = j < size ? ELEM_V(&v.m_data[j]) : 0;
@@ -363,35 +363,49 @@ INSERT_POST = '''
     if (k > pos && k <= size) __CPROVER_assert(ELEM_V(&v.m_data[k]) == old_j, "value: %(f)s: elements from pos on move up by one");
     if (size < cap) __CPROVER_assert(v.m_data == d0 && v.m_capacity == cap, "value: %(f)s: no reallocation while size() < capacity()");
 '''
+SPLIT = {'params': {'REALLOC': [0]}, 'params_thorough': {'REALLOC': [0, 1]}, 'timeout': 400}
+SPLIT_NOTE = ['quick tier: the case size() < capacity() (no reallocation); thorough tier: also size() == capacity() (solver time > 60 s)']
 unit('insert_value',
      ['igris::vector::insert(const_iterator, const T&)', 'igris::vector::insert(int, const T&)', 'std::move_backward stub', 'std::prev stub'],
      ['AD', 'CB', 'W_INSERT'],
-     'insert(pos, x), begin() <= pos <= end(), from an arbitrary VEC state (with or without reallocation; x outside the vector or one of its elements): '
-     'size()+1, elements before pos unchanged, element pos == x, elements from pos on moved up by one, iterator to the new element returned; lifetime - '
-     'only live elements are assigned to / moved from, the new last slot is constructed, nothing alive above size()',
+     'insert(pos, x), begin() <= pos <= end(), x outside the vector, from an arbitrary VEC state: size()+1, elements before pos unchanged, element pos == x, '
+     'elements from pos on moved up by one, iterator to the new element returned; lifetime - only live elements are assigned to / moved from, the new '
+     'last slot is constructed, nothing alive above size(); the (int pos) overload forwards to it',
      '''
 void harness(void)
 {''' + PRE + INSERT_PRE + '''
-    WIT(int, alias); WIT(size_t, a); WIT(int, by_index);
-    ELEM *val;
-    if (alias) {
-        __CPROVER_assume(a < size);
-        val = &v.m_data[a];
-        if (a != k && a != j) __CPROVER_assume(ELEM_ST(val) == ELEM_LIVE);   /* VEC at slot a */
-        x = ELEM_V(val);
-    } else {
-        val = (ELEM *)NEW_OBJ(sizeof(ELEM)); ELEM_SET(val, ELEM_LIVE, x); g_solo = val;
-    }
-    /* known finding: x is an element of the vector: read after it has been shifted / after the block has been released */
-    C02_KF(KF_C02_insert_self_alias, alias);
+    WIT(int, by_index);
+    ELEM *val = (ELEM *)NEW_OBJ(sizeof(ELEM)); ELEM_SET(val, ELEM_LIVE, x); g_solo = val;
     if (by_index) __CPROVER_assume(pos <= 0x7fffffff);
 
     ELEM *r = by_index ? vector_insert_at(&v, (int)pos, val) : vector_insert(&v, v.m_data + pos, val);
 ''' + INSERT_POST % {'f': 'insert(pos, x)'} + '''
-    if (!alias) __CPROVER_assert(C02_IS(val, ELEM_LIVE, x), "frame: insert(pos, x): the argument is not modified");
+    __CPROVER_assert(C02_IS(val, ELEM_LIVE, x), "frame: insert(pos, x): the argument is not modified");
     CANARY("insert(pos, x) end reachable");
 }
-''', kf=['C02_insert_raw_slot', 'C02_insert_self_alias', 'C02_insert_null'])
+''', kf=['C02_insert_raw_slot'], extra=SPLIT, assumptions=SPLIT_NOTE)
+
+unit('insert_alias',
+     ['igris::vector::insert(const_iterator, const T&) with an element of the vector as argument'],
+     ['AD', 'CB', 'W_INSERT'],
+     'insert(pos, v[a]) (std::vector supports an argument that is an element of the vector): same result as insert(pos, copy of v[a]); the argument is '
+     'read while it is a live element of a live block',
+     '''
+void harness(void)
+{''' + PRE + INSERT_PRE.replace('__CPROVER_assume(REALLOC ? size == cap : size < cap);   /* case split (params): with / without reallocation */', '') + '''
+    WIT(size_t, a);
+    __CPROVER_assume(a < size);
+    ELEM *val = &v.m_data[a];
+    if (a != k && a != j) __CPROVER_assume(ELEM_ST(val) == ELEM_LIVE);   /* VEC at slot a */
+    x = ELEM_V(val);
+    /* known finding: the argument is read after the shift (a >= pos: from a moved-from element) / after the old block has been released */
+    C02_KF(KF_C02_insert_self_alias, a >= pos || size == cap);
+
+    ELEM *r = vector_insert(&v, v.m_data + pos, val);
+''' + INSERT_POST % {'f': 'insert(pos, v[a])'} + '''
+    CANARY("insert(pos, v[a]) end reachable");
+}
+''', kf=['C02_insert_raw_slot', 'C02_insert_self_alias'], extra={'timeout': 400})
 
 # ---------------------------------------------------------------------------------------------- emplace(pos, arg)
 unit('emplace',
@@ -402,11 +416,233 @@ unit('emplace',
      '''
 void harness(void)
 {''' + PRE + INSERT_PRE + '''
-    /* known finding: for pos < end() the new element is placement-new'ed over the moved-from (not destroyed) element at pos */
-    C02_KF(KF_C02_emplace_over_live, pos < size);
+    /* known findings C02_insert_raw_slot / C02_emplace_over_live (pos < end()): waived per slot by the injected ghost windows, not by an input region */
 
     ELEM *r = vector_emplace(&v, v.m_data + pos, x);
 ''' + INSERT_POST % {'f': 'emplace(pos, a)'} + '''
     CANARY("emplace(pos, a) end reachable");
 }
-''', kf=['C02_insert_raw_slot', 'C02_emplace_over_live', 'C02_insert_null'])
+''', kf=['C02_insert_raw_slot', 'C02_emplace_over_live'], extra=SPLIT, assumptions=SPLIT_NOTE)
+
+# ---------------------------------------------------------------------------------------------- two-vector scenarios
+PRE2 = '''
+    struct vector v, w;
+    WIT(size_t, cap); WIT(size_t, size); WIT(size_t, k); WIT(size_t, j); WIT(int, isnull);
+    WIT(size_t, wcap); WIT(size_t, wsize); WIT(int, wisnull);
+    WIT_ARR(int, content, 4); WIT_ARR(int, wcontent, 4);
+    c02_init(k, j);
+    c02_vec_any(&v, cap, size, isnull, content);
+    c02_vec_any(&w, wcap, wsize, wisnull, wcontent);
+'''
+
+unit('ctor_copy',
+     ['igris::vector::vector(const vector&)', 'igris::constructor'],
+     ['CCC'],
+     'copy constructor from an arbitrary VEC state of the source: the new vector has the source\'s size() and element values in order, every element is '
+     'copy-constructed over RAW storage of a fresh block from a live element, VEC holds for the copy; the source is untouched',
+     '''
+void harness(void)
+{''' + PRE + '''
+    struct vector c;
+    int src_k = k < size ? ELEM_V(&v.m_data[k]) : 0;
+    ELEM *d0 = v.m_data;
+
+    vector_defaults(&c);
+    vector_ctor_copy(&c, &v);
+
+    c02_vec_check(&c);
+    c02_vec_check(&v);
+    c02_no_leak(&c, &v);
+    __CPROVER_assert(c.m_size == size, "value: copy constructor: same size()");
+    if (k < size) __CPROVER_assert(ELEM_V(&c.m_data[k]) == src_k, "value: copy constructor: same elements in the same order");
+    __CPROVER_assert(v.m_data == d0 && v.m_size == size && v.m_capacity == cap, "frame: copy constructor: the source vector is untouched");
+    if (k < size) __CPROVER_assert(ELEM_V(&v.m_data[k]) == src_k, "frame: copy constructor: the source elements keep their value");
+    __CPROVER_assert(c.m_data != v.m_data || v.m_data == NULL, "value: copy constructor: the copy owns its own block");
+    CANARY("copy constructor end reachable");
+}
+''')
+
+unit('assign_copy',
+     ['igris::vector::operator=(const vector&)', 'igris::vector::invalidate', 'igris::constructor'],
+     ['AD', 'CCA'],
+     'copy assignment w = v from arbitrary VEC states of both: the old elements of w are destroyed exactly once and its block released, w gets v\'s size() '
+     'and element values in order, copy-constructed over RAW storage inside a block that is large enough; v is untouched; self-assignment changes nothing',
+     '''
+void harness(void)
+{''' + PRE2 + '''
+    WIT(int, self_assign);
+    /* known finding: the new block is allocated with the size left by invalidate() (0 slots), then v.size() elements are constructed in it */
+    C02_KF(KF_C02_copy_assign_alloc0, !self_assign && size > 0);
+    int src_k = k < size ? ELEM_V(&v.m_data[k]) : 0;
+    int w_k = k < wsize ? ELEM_V(&w.m_data[k]) : 0;
+    ELEM *d0 = v.m_data, *wd0 = w.m_data;
+
+    if (self_assign) vector_assign_copy(&w, &w); else vector_assign_copy(&w, &v);
+
+    c02_vec_check(&w);
+    c02_vec_check(&v);
+    c02_no_leak(&w, &v);
+    if (self_assign) {
+        __CPROVER_assert(w.m_data == wd0 && w.m_size == wsize && w.m_capacity == wcap, "value: copy assignment: w = w changes nothing");
+        if (k < wsize) __CPROVER_assert(ELEM_V(&w.m_data[k]) == w_k, "value: copy assignment: w = w keeps the elements");
+    } else {
+        __CPROVER_assert(w.m_size == size, "value: copy assignment: same size() as the source");
+        if (k < size) __CPROVER_assert(ELEM_V(&w.m_data[k]) == src_k, "value: copy assignment: same elements in the same order");
+        __CPROVER_assert(w.m_data != v.m_data || v.m_data == NULL, "value: copy assignment: the target owns its own block");
+    }
+    __CPROVER_assert(v.m_data == d0 && v.m_size == size && v.m_capacity == cap, "frame: copy assignment: the source vector is untouched");
+    if (k < size) __CPROVER_assert(ELEM_V(&v.m_data[k]) == src_k, "frame: copy assignment: the source elements keep their value");
+    CANARY("copy assignment end reachable");
+}
+''', kf=['C02_copy_assign_alloc0'])
+
+unit('move_ops',
+     ['igris::vector::vector(vector&&)', 'igris::vector::operator=(vector&&)', 'igris::vector::invalidate'],
+     ['AD'],
+     'move constructor / move assignment from arbitrary VEC states: the target takes over block, size() and capacity() of the source (element values and '
+     'addresses unchanged, no element operation), the source is left empty (NULL, 0, 0); move assignment first destroys the target\'s old elements exactly once '
+     'and releases its block; self-move-assignment changes nothing',
+     '''
+void harness(void)
+{''' + PRE2 + '''
+    WIT(int, op);
+    ELEM *d0 = v.m_data, *wd0 = w.m_data;
+    int src_k = k < size ? ELEM_V(&v.m_data[k]) : 0;
+    if (op == 0) {
+        struct vector c;
+        vector_defaults(&c);
+        vector_ctor_move(&c, &v);
+        c02_vec_check(&c);
+        c02_vec_check(&v);
+        __CPROVER_assert(c.m_data == d0 && c.m_size == size && c.m_capacity == cap, "value: move constructor: takes over block, size() and capacity()");
+        __CPROVER_assert(v.m_data == NULL && v.m_size == 0 && v.m_capacity == 0, "value: move constructor: the source is left empty");
+        if (k < size) __CPROVER_assert(ELEM_V(&c.m_data[k]) == src_k, "value: move constructor: elements unchanged");
+        __CPROVER_assert(g_alloc_calls == 0 && g_dealloc_calls == 0, "value: move constructor: no allocation");
+    } else if (op == 1) {
+        vector_assign_move(&w, &v);
+        c02_vec_check(&w);
+        c02_vec_check(&v);
+        c02_no_leak(&w, &v);
+        __CPROVER_assert(w.m_data == d0 && w.m_size == size && w.m_capacity == cap, "value: move assignment: takes over block, size() and capacity()");
+        __CPROVER_assert(v.m_data == NULL && v.m_size == 0 && v.m_capacity == 0, "value: move assignment: the source is left empty");
+        if (k < size) __CPROVER_assert(ELEM_V(&w.m_data[k]) == src_k, "value: move assignment: elements unchanged");
+        __CPROVER_assert(g_dealloc_calls == (wisnull ? 0 : 1), "lifetime: move assignment: the target's old block is released exactly once");
+    } else {
+        vector_assign_move(&v, &v);
+        c02_vec_check(&v);
+        __CPROVER_assert(v.m_data == d0 && v.m_size == size && v.m_capacity == cap, "value: move assignment: v = std::move(v) changes nothing");
+        if (k < size) __CPROVER_assert(ELEM_V(&v.m_data[k]) == src_k, "value: move assignment: v = std::move(v) keeps the elements");
+    }
+    CANARY("move operations end reachable");
+}
+''')
+
+unit('op_eq',
+     ['igris::vector::operator==', 'igris::vector::operator!='],
+     ['EQ'],
+     'operator== / operator!= on arbitrary VEC states (also v == v): true iff the sizes are equal and the elements are equal position by position '
+     '(std::vector: equal ranges); only live elements inside the blocks are read; nothing is modified',
+     '''
+void harness(void)
+{''' + PRE2 + '''
+    WIT(int, same); WIT(int, ne);
+    struct vector *o = same ? &v : &w;
+    size_t osize = same ? size : wsize;
+
+    bool r = ne ? !vector_ne(&v, o) : vector_eq(&v, o);
+
+    if (r) {
+        __CPROVER_assert(size == osize, "value: operator==: true only for equal sizes");
+        if (k < size) __CPROVER_assert(ELEM_V(&v.m_data[k]) == ELEM_V(&o->m_data[k]), "value: operator==: true only if every pair of elements is equal");
+    } else {
+        size_t idx = size != osize ? 0 : (size_t)(g_eq_it - v.m_data);      /* ghost: where the loop stopped */
+        __CPROVER_assert(size != osize || (idx < size && ELEM_V(&v.m_data[idx]) != ELEM_V(&o->m_data[idx])),
+                         "value: operator==: false only for different sizes or a differing pair of elements");
+    }
+    c02_vec_check(&v);
+    c02_vec_check(&w);
+    __CPROVER_assert(v.m_size == size && v.m_capacity == cap && w.m_size == wsize && w.m_capacity == wcap, "frame: operator==: nothing modified");
+    CANARY("operator== end reachable");
+}
+''')
+
+unit('op_lt',
+     ['igris::vector::operator<', 'std::lexicographical_compare stub'],
+     [],
+     'operator< on arbitrary VEC states: lexicographic comparison of the two element sequences ([alg.lex.comparison]): with m = length of the common '
+     'equal prefix, v < w iff (m < both sizes and v[m] < w[m]) or (m == v.size() < w.size()); only live elements inside the blocks are read',
+     '''
+void harness(void)
+{''' + PRE2 + '''
+    bool r = vector_lt(&v, &w);
+
+    size_t m = g_lex_m;
+    __CPROVER_assert(m <= size && m <= wsize, "value: operator<: the compared prefix lies inside both vectors");
+    if (k < m) __CPROVER_assert(ELEM_V(&v.m_data[k]) == ELEM_V(&w.m_data[k]), "value: operator<: the elements before the deciding position are equivalent");
+    if (m < size && m < wsize) {
+        __CPROVER_assert(ELEM_V(&v.m_data[m]) != ELEM_V(&w.m_data[m]), "value: operator<: the deciding position is the first mismatch");
+        __CPROVER_assert(r == (ELEM_V(&v.m_data[m]) < ELEM_V(&w.m_data[m])), "value: operator<: decided by the first mismatching pair");
+    } else
+        __CPROVER_assert(r == (size < wsize), "value: operator<: a proper prefix is less, equal sequences are not");
+    c02_vec_check(&v);
+    c02_vec_check(&w);
+    CANARY("operator< end reachable");
+}
+''')
+
+unit('ctor_n',
+     ['igris::vector::vector(size_t)', 'igris::vector::resize', 'igris::vector::reserve', 'igris::vector::changeBuffer'],
+     ['AD', 'CB', 'RS'],
+     'vector(n): n value-initialised elements (T()) constructed over RAW storage of a fresh block; size() == n, VEC holds',
+     '''
+void harness(void)
+{
+    struct vector c;
+    WIT(size_t, n); WIT(size_t, k); WIT(size_t, j);
+    c02_init(k, j);
+    __CPROVER_assume(n <= C02_MAXN);
+
+    vector_defaults(&c);
+    vector_ctor_n(&c, n);
+
+    c02_vec_check(&c);
+    c02_no_leak(&c, NULL);
+    __CPROVER_assert(c.m_size == n, "value: vector(n): size() == n");
+    if (k < n) __CPROVER_assert(ELEM_V(&c.m_data[k]) == 0, "value: vector(n): every element is value-initialised (T())");
+    CANARY("vector(n) end reachable");
+}
+''')
+
+unit('ctor_range',
+     ['igris::vector::vector(I first, O last)', 'igris::vector::reserve', 'igris::vector::push_back', 'std::distance stub'],
+     ['AD', 'CB', 'CR'],
+     'template range constructor vector(first, last) over a foreign range of live elements: one reserve(distance), then size() == distance and element i '
+     'is a copy of first[i], each copy-constructed over RAW storage without any reallocation; the source range is untouched',
+     '''
+void harness(void)
+{
+    struct vector c;
+    WIT(size_t, n); WIT(size_t, k); WIT(size_t, j);
+    WIT_ARR(int, content, 4);
+    c02_init(k, j);
+    __CPROVER_assume(n <= C02_MAXN);
+    ELEM *src = (ELEM *)NEW_OBJ(n * sizeof(ELEM));
+#ifdef WITNESS_MODE
+    for (size_t i = 0; i < n; i++) ELEM_SET(&src[i], ELEM_LIVE, content[i]);
+#else
+    if (k < n) __CPROVER_assume(ELEM_ST(&src[k]) == ELEM_LIVE);      /* the source range holds live elements (at the tracked index) */
+#endif
+    int src_k = k < n ? ELEM_V(&src[k]) : 0;
+
+    vector_defaults(&c);
+    vector_ctor_range(&c, src, src + n);
+
+    c02_vec_check(&c);
+    c02_no_leak(&c, NULL);
+    __CPROVER_assert(c.m_size == n, "value: vector(first, last): size() == distance(first, last)");
+    if (k < n) __CPROVER_assert(ELEM_V(&c.m_data[k]) == src_k, "value: vector(first, last): element i is a copy of first[i]");
+    if (k < n) __CPROVER_assert(C02_IS(&src[k], ELEM_LIVE, src_k), "frame: vector(first, last): the source range is untouched");
+    __CPROVER_assert(g_alloc_calls <= 1, "value: vector(first, last): at most one allocation");
+    CANARY("vector(first, last) end reachable");
+}
+''')
